@@ -48,7 +48,17 @@ Definition step (s : sl) (l : label) : option sl :=
   | Acquire h =>
       if has_handle s h then None else
       match sock s with
-      | Closed => None          (* a fully released listener is dropped by the manager *)
+      | Closed =>
+          (* re-acquisition after full release: the manager dropped the old shared listener and
+             builds a new one on the same address (a new generation); the old accept goroutine
+             has finished *)
+          match g s with
+          | GExited =>
+              Some {| sock := Open; kq := []; g := GAccepting; ch_closed := false; done := false; count := 1;
+                      handles := handles s ++ [h]; hstate := hupd (hstate s) h hst0;
+                      arrived := arrived s; delivered := delivered s; srv_closed := srv_closed s |}
+          | _ => None
+          end
       | Unbound =>
           Some {| sock := Open; kq := []; g := GAccepting; ch_closed := false; done := false; count := 1;
                   handles := handles s ++ [h]; hstate := hupd (hstate s) h hst0;
